@@ -215,7 +215,7 @@ Abs(e) ==
     [] e.k = "mul"  -> LET a == Abs(e.a)  b == Abs(e.b) IN
                        IF a.seq /\ ~b.seq THEN [v |-> -1, vlo |-> 0, lo |-> MulCap(a.lo, VLo(b)), hi |-> IF b.v >= 0 THEN MulCap(a.hi, b.v) ELSE CAPB, seq |-> TRUE]
                        ELSE IF b.seq /\ ~a.seq THEN [v |-> -1, vlo |-> 0, lo |-> MulCap(b.lo, VLo(a)), hi |-> IF a.v >= 0 THEN MulCap(b.hi, a.v) ELSE CAPB, seq |-> TRUE]
-                       ELSE LET ex == IF a.v >= 0 /\ b.v >= 0 /\ (a.v = 0 \/ b.v <= Big6 \div a.v) THEN a.v * b.v ELSE -1 IN
+                       ELSE LET ex == IF a.v = 0 \/ b.v = 0 THEN 0 ELSE IF a.v >= 0 /\ b.v >= 0 /\ b.v <= Big6 \div a.v THEN a.v * b.v ELSE -1 IN
                             [v |-> ex, vlo |-> IF ex >= 0 THEN ex ELSE Big6, lo |-> IF ex >= 0 THEN BitLen(ex) ELSE (IF a.v = 0 \/ b.v = 0 THEN 1 ELSE AddCap(a.lo, b.lo) - 1),
                              hi |-> IF ex >= 0 THEN BitLen(ex) ELSE AddCap(a.hi, b.hi), seq |-> FALSE]
     [] e.k = "fact" -> LET a == Abs(e.a) IN
